@@ -60,7 +60,10 @@ def gen(rng, tier, ctx):
     three = list(all_specs(3))
     if tier != "thorough":
         three = rng.sample(three, 260)
-    return [(2, s) for s in two] + [(3, s) for s in three]
+    cases = [(2, s) for s in two] + [(3, s) for s in three]
+    # the same chains inside an exception handler (every block in_catch, or every block but the first)
+    cases += [(2, s, k) for s in two for k in (1, 2)] + [(3, s, rng.choice((1, 2))) for s in three[::3]]
+    return cases
 
 
 def envs(n):
@@ -71,7 +74,7 @@ def envs(n):
     return out
 
 
-def build(spec):
+def build(spec, in_catch=0):
     from androguard.decompiler.basic_blocks import CondBlock, ReturnBlock
     from androguard.decompiler.control_flow import short_circuit_struct
     from androguard.decompiler.graph import Graph
@@ -87,6 +90,9 @@ def build(spec):
         g.add_edge(conds[i], node(t))
         g.add_edge(conds[i], node(f))
     g.entry = conds[0]
+    for k, x in enumerate(conds + list(exits.values())):
+        if in_catch == 1 or (in_catch == 2 and k > 0):
+            x.in_catch = True
     g.compute_rpo()
     short_circuit_struct(g, g.immediate_dominators(), {})
     return g
@@ -175,14 +181,15 @@ def whole_if(spec, n):
 
 
 def impl(case):
-    n, spec = case
-    g = build(spec)
+    n, spec = case[:2]
+    ic = case[2] if len(case) > 2 else 0
+    g = build(spec, ic)
     tree = graph_tree(g.entry)
     plain, _, texts = routes(g, n, False)
-    g2 = build(spec)
+    g2 = build(spec, ic)
     negated, neg_struct, texts2 = routes(g2, n, True)
     return {"tree": tree, "plain": plain, "negated": negated, "neg_struct": neg_struct, "texts": texts, "texts_negated": texts2,
-            "writer": whole_if(spec, n)}
+            "writer": whole_if(spec, n) if not ic else None}
 
 
 def vcond(c):
@@ -213,7 +220,7 @@ def original(spec, env):
 
 
 def oracle(case, res):
-    n, spec = case
+    n, spec = case[:2]
     if isinstance(res, Err):
         return "merging or printing failed: %s %s" % (res.name, res.msg[:150])
     want = [original(spec, env) for env in envs(n)]
@@ -234,7 +241,7 @@ def oracle(case, res):
 
 
 def stats(cases, results):
-    d = {"chains": len(cases), "two_node": sum(1 for c in cases if c[0] == 2), "three_node": sum(1 for c in cases if c[0] == 3),
+    d = {"chains": len(cases), "inside_a_catch_handler": sum(1 for c in cases if len(c) > 2), "two_node": sum(1 for c in cases if c[0] == 2), "three_node": sum(1 for c in cases if c[0] == 3),
          "merged_blocks": 0, "nested_conditions": 0, "with_pending_negation": 0, "writer_statements": 0}
 
     def walk(c):
